@@ -143,13 +143,11 @@ def check_timelimit(s, rule="C13.4"):
          "max_episode_steps is stored unchanged", s.loc("TimeLimit", "__init__"), key="stores-N", detail=show(pc.self_attrs.get("max_episode_steps", NONE)))
 
 
-def check(s):
+def check_spaces(s, rule="C13.2"):
+    """The space a wrapper family does not transform is the inner environment's (pass-through property)."""
     P = s.prog
     self_ = ("param", "self")
     wrappers = [c for c in P.concrete_exported("lerax.wrapper")]
-    if len(wrappers) < 11:
-        raise AnalysisError(f"expected >= 11 exported concrete wrappers, found {len(wrappers)}")
-    check_delegation(s)
     # ---------------------------------------------------------------- C13.2 spaces
     for ci in wrappers:
         fam = family(P, ci)
@@ -161,14 +159,24 @@ def check(s):
             if r is not None and r[0] == "field" and r[2].abstract:
                 continue  # not constructible at all: reported once, by C13.3
             if r is None or r[0] != "method" or r[1].is_abstractmethod(sp):
-                s.ob("C13.2", con, False, f"the untouched {sp} is defined as a pass-through property", P.loc(ci.module, ci.node), key="space-missing",
+                s.ob(rule, con, False, f"the untouched {sp} is defined as a pass-through property", P.loc(ci.module, ci.node), key="space-missing",
                      detail=f"resolved to {r[0] if r else None}", necessary_for="wrappers advertise the matching space")
                 continue
             b = s.builder(inline=set())
             from ..vgraph import Ctx
             pp = live(b.paths(r[2], Ctx(r[1].module, r[1], r[2], ci)))
-            s.ob("C13.2", con, len(pp) == 1 and pp[0].ret == ("attr", ("attr", self_, "env"), sp), f"{sp} is the inner environment's", P.loc(r[1].module, r[2]),
+            s.ob(rule, con, len(pp) == 1 and pp[0].ret == ("attr", ("attr", self_, "env"), sp), f"{sp} is the inner environment's", P.loc(r[1].module, r[2]),
                  key="space-passthrough", detail="; ".join(show(x.ret) for x in pp))
+
+
+def check(s):
+    P = s.prog
+    self_ = ("param", "self")
+    wrappers = [c for c in P.concrete_exported("lerax.wrapper")]
+    if len(wrappers) < 11:
+        raise AnalysisError(f"expected >= 11 exported concrete wrappers, found {len(wrappers)}")
+    check_delegation(s)
+    check_spaces(s)
     # ---------------------------------------------------------------- C13.3 constructibility
     n_cls = 0
     for pkg in ("lerax.wrapper", "lerax.env", "lerax.space", "lerax.distribution", "lerax.policy", "lerax.buffer", "lerax.algorithm"):
@@ -226,7 +234,7 @@ c = c0.at[minf].set(mn[minf] - box.low[minf] * g[minf])
 """
 
 
-def check_rescale(s):
+def check_rescale(s, rule="C13.5"):
     P = s.prog
     self_ = ("param", "self")
     b = s.builder(inline=set())
@@ -244,10 +252,10 @@ def check_rescale(s):
     bw = b.apply(f["backward"], (x,), ())
     bind = dict(ref)
     bind["x"] = x
-    s.eq("C13.5", con + ".forward", nz, fw, s.ref(b, "g * x + c", bind),
+    s.eq(rule, con + ".forward", nz, fw, s.ref(b, "g * x + c", bind),
          "forward(x) == g·x + c with g = (max−min)/(high−low) on the both-finite mask and c = min − low·g", loc, key="forward-formula",
          necessary_for="the affine rescale takes the new bounds exactly onto the original bounds")
-    s.eq("C13.5", con + ".backward", nz, bw, s.ref(b, "(x - c) / g", bind), "backward(x) == (x − c)/g on the same g, c", loc, key="backward-formula")
+    s.eq(rule, con + ".backward", nz, bw, s.ref(b, "(x - c) / g", bind), "backward(x) == (x − c)/g on the same g, c", loc, key="backward-formula")
     # inverse pair, symbolically (g, c opaque)
     G, C = ("param", "$g"), ("param", "$c")
     gnode, cnode = ref["g"], ref["c"]
@@ -255,9 +263,9 @@ def check_rescale(s):
     fw_s = replace_nodes(replace_nodes(fw, {cnode: C}), {gnode: G})
     bw_s = replace_nodes(replace_nodes(bw, {cnode: C}), {gnode: G})
     comp = replace_nodes(fw_s, {x: bw_s})
-    s.ob("C13.5", con, nz.canon(comp) == ("p", "$x"), "forward(backward(x)) == x (an inverse pair)", loc, key="inverse-pair",
+    s.ob(rule, con, nz.canon(comp) == ("p", "$x"), "forward(backward(x)) == x (an inverse pair)", loc, key="inverse-pair",
          detail=show_term(nz.canon(comp), 300))
-    s.eq("C13.5", con + ".box", nz, f["box"], s.ref(b, "Box(low=mn, high=mx, shape=box.shape)", dict(ref, Box=("global", "lerax.space.box.Box"), box=("param", "box"))),
+    s.eq(rule, con + ".box", nz, f["box"], s.ref(b, "Box(low=mn, high=mx, shape=box.shape)", dict(ref, Box=("global", "lerax.space.box.Box"), box=("param", "box"))),
          "the advertised box is Box(min, max) of the original shape", loc, key="new-box")
     # users
     bu = s.builder(inline={"rescale_box"})
@@ -277,14 +285,14 @@ def check_rescale(s):
                 refenv["x"] = xs_
                 want_f = s.ref(bu, "(x - c) / g" if which == "backward" else "g * x + c", refenv)
                 ok = nzu.canon(bu.apply(func, (xs_,), ())) == nzu.canon(want_f)
-            s.ob("C13.5", f"{cls}.__init__", ok, f"{cls}.func computes the `{which}` map of rescale_box(env.{inner}, min, max): " + ("(x − c)/g" if which == "backward" else "g·x + c"),
+            s.ob(rule, f"{cls}.__init__", ok, f"{cls}.func computes the `{which}` map of rescale_box(env.{inner}, min, max): " + ("(x − c)/g" if which == "backward" else "g·x + c"),
                  s.loc(cls, "__init__"), key="rescale-direction",
                  detail=repr(func), necessary_for="the inner environment is fed the action mapped onto the ORIGINAL bounds / the observation mapped onto the NEW bounds")
             okb = isinstance(space, tuple) and space[0] == "record" and space[1].endswith(".Box")
             fb = fields(space) if okb else {}
             # the advertised box and func come from one call: both built from env.<inner> and (min, max)
             deps = {x_ for x_ in walk(space) if isinstance(x_, tuple) and x_ and x_[0] == "attr" and x_[2] == inner} if okb else set()
-            s.ob("C13.5", f"{cls}.__init__", okb and ("attr", ("param", "env"), inner) in deps and ("param", "min") in set(walk(space)) and ("param", "max") in set(walk(space)),
+            s.ob(rule, f"{cls}.__init__", okb and ("attr", ("param", "env"), inner) in deps and ("param", "min") in set(walk(space)) and ("param", "max") in set(walk(space)),
                  f"the advertised {space_attr} is the Box(min, max) of the same rescale_box(env.{inner}, min, max) call", s.loc(cls, "__init__"), key="rescale-space",
                  detail=show(space or NONE, maxlen=200))
         if n == 0:
@@ -296,21 +304,21 @@ def check_rescale(s):
         if isinstance(func, Closure):
             out = bu.apply(func, (("param", "$a"),), ())
             ok = nzu.canon(out) == nzu.canon(s.ref(bu, "jnp.clip(a, env.action_space.low, env.action_space.high)", {"a": ("param", "$a"), "env": ("param", "env")}))
-        s.ob("C13.5", "ClipAction.__init__", ok, "ClipAction.func == clip(·, inner low, inner high)", s.loc("ClipAction", "__init__"), key="clip-action", detail=repr(func),
+        s.ob(rule, "ClipAction.__init__", ok, "ClipAction.func == clip(·, inner low, inner high)", s.loc("ClipAction", "__init__"), key="clip-action", detail=repr(func),
              necessary_for="action wrappers feed the inner environment the action clipped to ITS bounds")
     for pp in live(s.paths(bu, "ClipObservation", "__init__")):
         func = pp.self_attrs.get("func")
         want = s.ref(bu, "partial(jnp.clip, min=env.observation_space.low, max=env.observation_space.high)", {"env": ("param", "env"), "partial": ("global", "functools.partial")})
-        s.ob("C13.5", "ClipObservation.__init__", nzu.canon(func) == nzu.canon(want) and pp.self_attrs.get("observation_space") == ("attr", ("param", "env"), "observation_space"),
+        s.ob(rule, "ClipObservation.__init__", nzu.canon(func) == nzu.canon(want) and pp.self_attrs.get("observation_space") == ("attr", ("param", "env"), "observation_space"),
              "ClipObservation clips with, and advertises, the inner observation space", s.loc("ClipObservation", "__init__"), key="clip-observation", detail=show(func or NONE, maxlen=160))
     for pp in live(s.paths(bu, "ClipReward", "__init__")):
         func = pp.self_attrs.get("func")
         want = s.ref(bu, "partial(jnp.clip, min=min, max=max)", {"min": ("param", "min"), "max": ("param", "max"), "partial": ("global", "functools.partial")})
-        s.ob("C13.5", "ClipReward.__init__", nzu.canon(func) == nzu.canon(want), "ClipReward.func == clip(·, min, max)", s.loc("ClipReward", "__init__"), key="clip-reward",
+        s.ob(rule, "ClipReward.__init__", nzu.canon(func) == nzu.canon(want), "ClipReward.func == clip(·, min, max)", s.loc("ClipReward", "__init__"), key="clip-reward",
              detail=show(func or NONE, maxlen=160))
 
 
-def check_constructors(s):
+def check_constructors(s, rule="C13.5"):
     """Generic Transform* wrappers store each constructor argument in the like-named field; FlattenObservation flattens with,
     and advertises a box of, the inner space's flat size."""
     b = s.builder(inline=set())
@@ -318,7 +326,7 @@ def check_constructors(s):
     for cls, names in (("TransformAction", ["env", "func", "mask_func", "action_space"]), ("TransformObservation", ["env", "func", "observation_space"]), ("TransformReward", ["env", "func"])):
         for p in live(s.paths(b, cls, "__init__")):
             bad = [n for n in names if p.self_attrs.get(n) != ("param", n)]
-            s.ob("C13.5", f"{cls}.__init__", not bad, "every constructor argument is stored in the like-named field", s.loc(cls, "__init__"), key="ctor-alignment", detail=str(bad))
+            s.ob(rule, f"{cls}.__init__", not bad, "every constructor argument is stored in the like-named field", s.loc(cls, "__init__"), key="ctor-alignment", detail=str(bad))
     for p in live(s.paths(b, "FlattenObservation", "__init__")):
         env_space = ("attr", ("param", "env"), "observation_space")
         func = p.self_attrs.get("func")
@@ -328,7 +336,7 @@ def check_constructors(s):
         shape = fsp.get("arg:shape")
         oks = isinstance(space, tuple) and space[0] == "record" and space[1].endswith(".Box") and shape is not None and ("attr", env_space, "flat_size") in set(walk(shape)) \
             and nz.canon(fsp.get("arg:low", NONE)) == nz.canon(("un", "USub", ("global", "jax.numpy.inf"))) and nz.canon(fsp.get("arg:high", NONE)) == ("k", "inf")
-        s.ob("C13.5", "FlattenObservation.__init__", okf and oks, "FlattenObservation maps with the inner space's flatten_sample and advertises Box(−inf, inf, (flat_size,))",
+        s.ob(rule, "FlattenObservation.__init__", okf and oks, "FlattenObservation maps with the inner space's flatten_sample and advertises Box(−inf, inf, (flat_size,))",
              s.loc("FlattenObservation", "__init__"), key="flatten-observation", detail=f"func={show(func or NONE, maxlen=80)} space={show(space or NONE, maxlen=160)}")
 
 
